@@ -30,9 +30,9 @@ CHECK_DEADLOCK FALSE
 """
 
 INVS = {
-    "C01": ("TypeOK Inv_C01_Get Inv_C01_Leaves", ""),
+    "C01": ("TypeOK Inv_C01_Get Inv_C01_Leaves Inv_C01_Probes", ""),
     "C02": ("TypeOK Inv_C02_Shape Inv_C02_Hash Inv_C02_CacheFresh", ""),
-    "C03": ("TypeOK Inv_C03_RootsInDb Inv_C03_MemoryBacked", "Act_C03_Commit Act_C03_Recreate"),
+    "C03": ("TypeOK Inv_C03_RootsInDb Inv_C03_MemoryBacked Inv_DirtyHashes", "Act_C03_Commit Act_C03_Recreate"),
 }
 # invariants of the trace specification that talk about logged data (the others are functions of the
 # specification's own state: if one of them fails on a trace the model is wrong, not the code)
@@ -79,14 +79,14 @@ def run_trie(ctx):
     rest = "VIEW cvars\nINVARIANTS %s\n" % invs + ("PROPERTIES %s\n" % props if props else "")
     r1 = dict(spec="Spec", log="LogLast", depth=0, rest=rest)
     if q:
-        r1.update(keys="K4", vals="1", levels="1, 2", commits=1)
+        r1.update(keys="K4", vals="1", rich="Rich1", levels="1, 2", commits=1)
     else:
-        r1.update(keys="K4", vals="1, 2", levels="1, 2, 5", commits=2)
+        r1.update(keys="K4", vals="1, 2", rich="Rich1", levels="1, 2, 5", commits=2)
     write(sd, "r1.cfg", CFG % r1)
     res1 = ctx.tlc(sd, "MC_Trie", "r1.cfg", timeout=900 if q else 3000, coverage=not q)
     t0 = note(ctx, "R1", t0)
     if not q and res1.ok:
-        missing = [a for a in ("Update", "DeleteKey", "Get", "RootHash", "Commit", "Recreate", "RecreateEmpty")
+        missing = [a for a in ("Update", "DeleteKey", "Get", "RootHash", "GetDirtyHashes", "Commit", "Recreate", "RecreateEmpty")
                    if a in res1.coverage_zero]
         if missing:
             ctx.broken.append("vacuity guard: actions never taken in the exhaustive run: %s" % missing)
@@ -94,9 +94,9 @@ def run_trie(ctx):
     # R2a: one behaviour per transition of the abstract state graph (bounded depth)
     gen = dict(spec="GenSpec", log="LogAppend", rest="VIEW cvars\nACTION_CONSTRAINT EmitEdge")
     if q:
-        gen.update(keys="K4", vals="1, 2", levels="1, 2", commits=2, depth=5)
+        gen.update(keys="K6", vals="1, 2", rich="Rich1", levels="1, 2", commits=2, depth=6)
     else:
-        gen.update(keys="K5", vals="1, 2", levels="1, 2, 5", commits=2, depth=6)
+        gen.update(keys="K6", vals="1, 2", rich="Rich1", levels="1, 2, 5", commits=2, depth=6)
     write(sd, "gen.cfg", CFG % gen)
     beh = ctx.path("edges.ndjson")
     t0 = time.time()
@@ -113,11 +113,11 @@ def run_trie(ctx):
             distinct_after_commit_or_recreate=int(r.stats.get("distinct_after_reopen", 0)),
             distinct_contents=int(r.stats.get("distinct_contents", 0)))
     # R2b: long random walks of the specification over a larger key universe
-    sim = dict(spec="GenSpec", log="LogAppend", keys="K7", vals="1, 2", levels="1, 2, 3, 5", commits=6,
-               depth=14 if q else 30, rest="ACTION_CONSTRAINT EmitFull")
+    sim = dict(spec="GenSpec", log="LogAppend", keys="K7", vals="1, 2", rich="RichAll", levels="1, 2, 3, 5", commits=6,
+               depth=20 if q else 30, rest="ACTION_CONSTRAINT EmitFull")
     write(sd, "sim.cfg", CFG % sim)
     beh2 = ctx.path("sim.ndjson")
-    s = ctx.tlc(sd, "MC_Trie", "sim.cfg", simulate=25 if q else 300, depth=sim["depth"], timeout=900,
+    s = ctx.tlc(sd, "MC_Trie", "sim.cfg", simulate=12 if q else 300, depth=sim["depth"], timeout=900,
                 behaviours_out=beh2, count=False)
     t0 = note(ctx, "R2b simulate", t0)
     write(ctx.scratch, "keys2.json", s.marks.get("KEYS", "[]"))
@@ -126,7 +126,7 @@ def run_trie(ctx):
     ctx.cov(traces_validated_against_impl=int(r2.stats.get("behaviours", 0)), evaluations=int(r2.stats.get("steps", 0)))
     # R3: random histories on the real trie, validated by TLC
     tr = os.path.join(sd, "trace.ndjson")
-    nt, ln = (12, 60) if q else (60, 150)
+    nt, ln = (8, 50) if q else (60, 150)
     r3 = ctx.vh(exe, ["record", ctx.seed, nt, ln, tr])
     tcfg = open(os.path.join(sd, "Trace_Trie.cfg")).read()
     tcfg = "\n".join(("INVARIANTS " + TRACE_INVS[ctx.prop]) if x.startswith("INVARIANTS") else x for x in tcfg.splitlines())
@@ -137,7 +137,7 @@ def run_trie(ctx):
         ctx.cov(traces_validated_against_impl=nt, evaluations=int(r3.stats.get("events", 0)))
     if not q and st == "accepted":
         selftests_trie(ctx, sd, tr)
-    ctx.cov(rule="R1: exhaustive over %s, values {%s}, maxTrieLevelInMemory {%s}, <= %d committed roots. "
+    ctx.cov(rule="R1: exhaustive over %s, values {%s} (second value only for key 0x1122), maxTrieLevelInMemory {%s}, <= %d committed roots. "
                  "R2: one behaviour per transition of the abstract state graph up to depth %d (%s, values {%s}, levels {%s}) "
                  "plus simulated walks of %d steps over 7 keys, replayed on the real trie: every Get / RootHash / Commit / "
                  "Recreate result is compared with the specification, and after the last step all keys are read, the trie "
@@ -253,27 +253,41 @@ def run_proofs(ctx):
     n = "4" if q else "6"
     t0 = time.time()
     inv_all = "INVARIANTS Inv_C04_Complete Inv_C04_Sound Inv_C04_NoPanic Inv_C04_Exact Inv_Cache"
-    # R1a: the intended design is sound, complete, crash-free (exhaustive over the case space)
-    write(sd, "p1.cfg", PCFG % dict(pkeys="P" + n, probes="Probes" + n, defects="", rest=inv_all))
-    ctx.tlc(sd, "MC_TrieProof", "p1.cfg", timeout=900 if q else 3000, coverage=not q)
-    t0 = note(ctx, "R1a", t0)
-    # R1b: with the named deviation of the code TLC must find both counterexamples (recorded, never a verdict)
     found = []
-    for inv in ("Inv_C04_Sound", "Inv_C04_NoPanic"):
-        write(sd, "p1d.cfg", PCFG % dict(pkeys="P3", probes="Probes3", defects=DEFECT, rest="INVARIANTS " + inv))
-        rd = ctx.tlc(sd, "MC_TrieProof", "p1d.cfg", timeout=600, count=False, allow=("invariant",))
-        if rd.error == "invariant:" + inv:
-            found.append(inv)
-        elif rd.ok:
-            ctx.broken.append("the specification with the deviation ExtNoPrefixCheck no longer violates %s" % inv)
-    ctx.cov(model_counterexamples_with_known_deviation=found)
-    t0 = note(ctx, "R1b", t0)
+    if not q:
+        # R1a: the intended design is sound, complete, crash-free (exhaustive over the case space)
+        write(sd, "p1.cfg", PCFG % dict(pkeys="P" + n, probes="Probes" + n, defects="", rest=inv_all))
+        ctx.tlc(sd, "MC_TrieProof", "p1.cfg", timeout=3000, coverage=True)
+        t0 = note(ctx, "R1a", t0)
+        # R1b: with the named deviation of the code TLC must find both counterexamples (recorded, never a verdict)
+        for inv in ("Inv_C04_Sound", "Inv_C04_NoPanic"):
+            write(sd, "p1d.cfg", PCFG % dict(pkeys="P3", probes="Probes3", defects=DEFECT, rest="INVARIANTS " + inv))
+            rd = ctx.tlc(sd, "MC_TrieProof", "p1d.cfg", timeout=600, count=False, allow=("invariant",))
+            if rd.error == "invariant:" + inv:
+                found.append(inv)
+            elif rd.ok:
+                ctx.broken.append("the specification with the deviation ExtNoPrefixCheck no longer violates %s" % inv)
+        t0 = note(ctx, "R1b", t0)
     exe = ctx.go_build("vh-trie")
     # R2: every case of the specification on the real GetProof / VerifyProof
-    write(sd, "pgen.cfg", PCFG % dict(pkeys="P" + n, probes="Probes" + n, defects=DEFECT, rest="ACTION_CONSTRAINT Emit"))
+    # (the same run checks the intended design -- Inv_C04_Design / Inv_C04_Exact do not depend on KnownDefects --
+    # and exports every case with both verdicts: intended and code-as-is)
+    write(sd, "pgen.cfg", PCFG % dict(pkeys="P" + n, probes="Probes" + n, defects=DEFECT,
+                                      rest="INVARIANTS Inv_C04_Design Inv_C04_Exact Inv_Cache\nACTION_CONSTRAINT Emit"))
     cases = ctx.path("cases.ndjson")
     t0 = time.time()
-    g = ctx.tlc(sd, "MC_TrieProof", "pgen.cfg", timeout=900 if q else 3000, behaviours_out=cases, count=False)
+    g = ctx.tlc(sd, "MC_TrieProof", "pgen.cfg", timeout=900 if q else 3000, behaviours_out=cases, count=q)
+    # counterexamples of the specification *with* the named deviation, as TLC evaluated them (never a verdict)
+    ncex = {"accepts-absent-key": 0, "panic": 0}
+    for line in open(cases):
+        for rec in json.loads(line):
+            if rec["a"] == "Verify" and rec["out"]["code"] == "true" and not rec["out"]["present"]:
+                ncex["accepts-absent-key"] += 1
+            if rec["a"] == "Verify" and rec["out"]["code"] == "panic":
+                ncex["panic"] += 1
+    if g.ok and min(ncex.values()) == 0:
+        ctx.broken.append("the specification with the deviation ExtNoPrefixCheck shows no counterexample: %s" % ncex)
+    ctx.cov(model_counterexamples_with_known_deviation=found, model_cases_violating_with_known_deviation=ncex)
     t0 = note(ctx, "R2 export", t0)
     if g.ok and g.behaviours == 0:
         ctx.broken.append("case export produced nothing")
